@@ -36,7 +36,7 @@ CLAIMED = {
  "C06": P("Metamorphic relations on tab-free documents: '> '-prefixing gives the blockquote wrapper and shifts every range by the inserted bytes; placing D in a loose list item gives the list wrapper; model/implementation correspondence on all three parses." + PENDING % "C06", "DESIGN.md section 6 C06", category="exploration", technique=TECH_X),
  "C07": P("Machine-checked Coq proofs over the whole-parser model in which the parser's interior-mutable caches (compiled chain of the three rulers, lazily chosen text scanner) are explicit state and all per-document state is created inside parse: a parser with warm caches returns what the same configuration with cold caches returns and keeps configuration and cache coherence; hence for every configuration history and every sequence of documents already parsed, the next parse returns exactly what a freshly built parser with the same configuration returns (unbounded in number and size of documents). Tied to /repo on every run by histories of 2..12 documents on one instance vs fresh instances (tree, HTML, XHTML; documents built to poison caches: reference definitions/look-ups, backtick runs, huge bracket spans, low-byte colliding characters) and by the model/implementation correspondence on those histories.", "DESIGN.md section 6 C07"),
  "C08": P('Machine-checked Coq proofs: every configuration call of the model (21 plugin adds incl. the emphasis/link bookkeeping in md.env, rule removal for block/inline/core rules, nesting limit) is determined by the configuration of its argument and leaves the caches coherent; therefore deleting the parse calls from any history of adds, removes and parses does not change what the next parse returns; the same for one Ruler (any adds with builder calls, removes, interleaved iter/Debug). Tied to /repo on every run by full-vs-erased histories at MarkdownIt level (random and exhaustive short histories per rule, letter- and punctuation-marker custom rules) and Ruler level, has_rule / Debug outcomes, and the model/implementation correspondence on every history.', "DESIGN.md section 6 C08"),
- "C09": P("Random rule sets (aliases, duplicate marks/constraints, absent and own marks, priorities): an independent oracle recomputes edges, requirement check, stable priority partition and the greedy order and demands permutation, every edge respected, order = greedy order, panic iff missing requirement or no admissible order, same result on reuse; the Coq model follows compile() statement by statement and is compared on every script." + PENDING % "C09", "DESIGN.md section 6 C09", category="exploration", technique=TECH_X),
+ "C09": P("Machine-checked Coq proofs for every rule set (any number of rules, marks, aliases, duplicate/absent/own marks in constraints, priorities, insertion order): compile() of src/common/ruler.rs, modelled loop by loop (Vec::insert positions, idhash with or_default entries, HashSet graph, repeated selection), equals the specification (refinement theorem compile_spec): panic Missing iff a requirement names an absent mark; otherwise the canonical greedy-by-rank order, which is a permutation of the rules respecting every before/after edge through every alias; panic Cyclic iff no admissible order exists (completeness by a pigeonhole argument on any admissible order); no other outcome; the Ruler cache returns the same answer on every use. The model is tied to /repo on every run by the differential correspondence on random builder scripts (order, panic kind, Debug output, reuse) plus an independent implementation-side oracle.", "DESIGN.md section 6 C09"),
  "C10": P('Machine-checked Coq proofs over the whole-parser model: the block parser receives only the list of line texts (source positions are symbolic), the line texts are invariant under LF->CRLF, LF->CR (CR-free input) and one appended final LF (input not ending in a line ending), and the core chain reads the source through them only unless the source-position rule runs; hence for every configuration without that rule, every fuel and every input the HTML/XHTML (or error) is unchanged by the three transformations. With the source-position plugin the statement is not proved (checked by oracle). Tied to /repo on every run by the metamorphic relations on generated documents, spec inputs and constructs left open at end of input under random plugin sets, and by the model/implementation correspondence on all variants.', "DESIGN.md section 6 C10"),
  "C11": P("Payload x {fence, four-space indent, backtick span} x {top level, block quote, list item}: content field and escaped HTML equal the payload; cutws/indent unit correspondence for the tab-stop arithmetic; model/implementation correspondence." + PENDING % "C11", "DESIGN.md section 6 C11", category="exploration", technique=TECH_X),
  "C12": P("Machine-checked Coq proofs about the decoder of destinations, titles, definitions and info strings (unescape_all): every named reference of the implementation's entity table decodes to its value (finite sweep over the generated table), every well-formed numeric reference decodes to the character of its code point or U+FFFD exactly as the paragraph-text path computes it (code_to_str o numeric_code), the allowed code points are characterised, backslash + punctuation decodes to the character and any other backslash stays. NOT proved: the equality across the five contexts end to end and the escape-everything round trip; these are decided on every run by the context oracle (every table name in the thorough tier, numeric boundaries, 32 escapes x 5 contexts), the round-trip oracle and the correspondence (unesc/ent/entcode unit commands and parses).", "DESIGN.md section 6 C12"),
